@@ -73,6 +73,9 @@ def sensitivity(args):
             patch = os.path.join(sd, d, 'patch.diff')
             if os.path.exists(meta) and os.path.exists(patch):
                 m = core.read_json(meta)
+                if m.get('caught_by') == [] and str(m.get('strengthening', '')).startswith('NOT CAUGHT'):
+                    print(f'{d}: documented miss, skipped')
+                    continue
                 cases.append((d, patch, m.get('caught_by') or [m['property']]))
     only = os.environ.get('VERIF_ONLY')
     results = {}
